@@ -68,7 +68,7 @@ def _r1(chk, repo):
     jd = repo.cls(f"{JD}:JointDistribution")
     f = repo.method(jd, "logd")[1]
     g = CFG(f)
-    loops = [n for n in g.nodes if n.kind == "iter" and _norm(n.ast.iter) == "self._densities"]
+    loops = [n for n in g.nodes if n.kind == "iter"]
     if len(loops) != 1:
         raise AnchorError("JointDistribution.logd: accumulation loop not found")
     chk.add("C01-R1", f"{jd.qual}.logd/names", _guarded_raise(g, loops[0], "set(self.get_parameter_names())!=set(kwargs.keys())", "F"), site(repo, f),
